@@ -6,4 +6,7 @@ CONSTANT ExhMax = 2
 CONSTANT RandPer = 20
 CONSTANT Fuzz = TRUE
 CONSTANT MutAll = TRUE
+CONSTANT Sizes = {1, 2, 12, 13, 20, 40, 100}
+CONSTANT SizesMany = {2, 13, 40}
+CONSTANT ManyMin = 2
 CHECK_DEADLOCK FALSE
